@@ -232,3 +232,92 @@ def oracle_c03(case, i, ep):
                     if abs(fk[path] - f0[path]) > _tol(sc):
                         bad.append(("no export but result depends on k_exp", {"path": path}))
     return bad
+
+
+def _rn(v):
+    return [Fraction(x) for x in v]
+
+
+def rer_tol(fl, sc):
+    """tolerance on RER-type ratios: 1e-4 plus the conditioning of ren/(ren+nren)"""
+    tot = abs(fl.get("balance/we/b/0", Fraction(0)) + fl.get("balance/we/b/1", Fraction(0)))
+    t = Fraction(1, 10000)
+    if tot > 0:
+        t += 8 * _tol(sc) * (1 + abs(fl.get("rer", Fraction(0)))) / tot
+    return t
+
+
+def oracle_c04(case, i, ep):
+    """totals = sums of breakdowns; per-m2 = total / area; RER etc. independent of the area"""
+    bad = []
+    bal = ep["balance"]
+    bcr = ep["balance_cr"]
+    fl = flat_ep(ep)
+    sc = ep_scale(fl)
+    tol = _tol(sc * max(1, len(bcr)))
+    area = Fraction(ep["arearef"])
+
+    def chk(name, a, b, t=tol):
+        if abs(Fraction(a) - Fraction(b)) > t:
+            bad.append(("total != sum of breakdown: " + name, {"total": core.fstr(Fraction(a)), "sum": core.fstr(Fraction(b))}))
+
+    S = lambda f: sum((Fraction(f(b)) for b in bcr.values()), Fraction(0))
+    chk("used.epus over carriers", bal["used"]["epus"], S(lambda b: b["used"]["epus_an"]))
+    chk("used.nepus over carriers", bal["used"]["nepus"], S(lambda b: b["used"]["nepus_an"]))
+    chk("used.cgnus over carriers", bal["used"]["cgnus"], S(lambda b: b["used"]["cgnus_an"]))
+    chk("prod.an over carriers", bal["prod"]["an"], S(lambda b: b["prod"]["an"]))
+    chk("del.an over carriers", bal["del"]["an"], S(lambda b: b["del"]["an"]))
+    chk("del.onst over carriers", bal["del"]["onst"], S(lambda b: b["del"]["onst_an"]))
+    chk("del.grid over carriers", bal["del"]["grid"], S(lambda b: b["del"]["grid_an"]))
+    chk("exp.an over carriers", bal["exp"]["an"], S(lambda b: b["exp"]["an"]))
+    chk("exp.grid over carriers", bal["exp"]["grid"], S(lambda b: b["exp"]["grid_an"]))
+    chk("exp.nepus over carriers", bal["exp"]["nepus"], S(lambda b: b["exp"]["nepus_an"]))
+    for fld, cfld in (("a", "a"), ("b", "b"), ("del", "del"), ("exp_a", "exp_a"), ("exp", "exp")):
+        for c in range(3):
+            chk("we.%s[%d] over carriers" % (fld, c), bal["we"][fld][c], S(lambda b: b["we"][cfld][c]))
+    # breakdowns
+    chk("used.epus by service", bal["used"]["epus"], sum(map(Fraction, bal["used"]["epus_by_srv"].values())))
+    chk("used.epus by carrier", bal["used"]["epus"], sum(map(Fraction, bal["used"]["epus_by_cr"].values())))
+    for s, m in bal["used"]["epus_by_cr_by_srv"].items():
+        chk("epus_by_cr_by_srv[%s] over carriers" % s, bal["used"]["epus_by_srv"].get(s, 0), sum(map(Fraction, m.values())))
+    for cr in bcr:
+        tot_cr = sum((Fraction(m.get(cr, 0)) for m in bal["used"]["epus_by_cr_by_srv"].values()), Fraction(0))
+        chk("epus_by_cr_by_srv over services [%s]" % cr, bal["used"]["epus_by_cr"].get(cr, 0), tot_cr)
+    chk("prod.an by source", bal["prod"]["an"], sum(map(Fraction, bal["prod"]["by_src"].values())))
+    chk("prod.an by carrier", bal["prod"]["an"], sum(map(Fraction, bal["prod"]["by_cr"].values())))
+    for j, m in bal["prod"]["epus_by_srv_by_src"].items():
+        chk("prod.epus_by_srv_by_src[%s] over services" % j, bal["prod"]["epus_by_src"].get(j, 0), sum(map(Fraction, m.values())))
+    chk("del.an = grid + onst + cgnus", bal["del"]["an"],
+        Fraction(bal["del"]["grid"]) + Fraction(bal["del"]["onst"]) + Fraction(bal["used"]["cgnus"]))
+    chk("del.grid by carrier", bal["del"]["grid"], sum(map(Fraction, bal["del"]["grid_by_cr"].values())))
+    chk("exp.an = grid + nepus", bal["exp"]["an"], Fraction(bal["exp"]["grid"]) + Fraction(bal["exp"]["nepus"]))
+    for fld in ("a", "b"):
+        for c in range(3):
+            by_srv = sum((Fraction(v[c]) for v in bal["we"][fld + "_by_srv"].values()), Fraction(0))
+            with_use = sum((Fraction(b["we"][fld][c]) for b in bcr.values() if b["used"]["epus_an"] > 0), Fraction(0))
+            chk("we.%s[%d] by service (carriers with EPB use)" % (fld, c), with_use, by_srv)
+    # per m2
+    m2 = {k[len("balance_m2/"):]: v for k, v in fl.items() if k.startswith("balance_m2/")}
+    ab = {k[len("balance/"):]: v for k, v in fl.items() if k.startswith("balance/")}
+    if set(m2) != set(ab):
+        bad.append(("balance_m2 and balance have different entries", {"only_m2": sorted(set(m2) - set(ab))[:5],
+                                                                      "only_abs": sorted(set(ab) - set(m2))[:5]}))
+    for k in ab:
+        if k in m2 and area > 0 and abs(m2[k] - ab[k] / area) > _tol(sc / area):
+            bad.append(("per-m2 value != total / area", {"path": k, "m2": core.fstr(m2[k]), "abs": core.fstr(ab[k]),
+                                                         "area": core.fstr(area)}))
+    # area independence across evaluations of the case
+    if i == 0:
+        for j, (k, a, lm) in enumerate(case.evals):
+            if j == 0 or (k, lm) != (case.evals[0][0], case.evals[0][2]):
+                continue
+            ev = case.impl["evals"][j].get("ep", {})
+            if "ok" not in ev:
+                continue
+            fj = flat_ep(ev["ok"])
+            for path, v in fl.items():
+                if path.startswith("balance_m2/") or path == "arearef":
+                    continue
+                if path not in fj or abs(fj[path] - v) > (rer_tol(fl, sc) if path.startswith("rer") else _tol(sc)):
+                    bad.append(("quantity other than per-m2 changes with the reference area", {"path": path}))
+    return bad
